@@ -454,7 +454,9 @@ func (g *genCtx) policy() PolicySpec {
 	// half of the runs keep consecutive engine steps at one simulated instant (ties
 	// between timestamps), the others give every durable write a duration
 	p.WriteLatUs = Pick(r, []int64{0, 0, 0, 0, 0, 1, 1, 250, 250, 3000})
+	p.Yields = r.Bool(0.5)
 	if g.profile == "C12" {
+		p.Yields = r.Bool(0.8)
 		p.ReplyP = Pick(r, []float64{0, 0.2, 0.5})
 	} else if r.Bool(0.1) {
 		p.ReplyP = 0.1
